@@ -33,9 +33,9 @@ def fake_prepend_zdir(zdir, path):
     return hx.FakePath(p, FS[0])
 
 
-hx.set(c, "prepend_zdir", fake_prepend_zdir)
-hx.set(ra, "print", lambda *a, **k: OUT.append(" ".join(str(x) for x in a)))
-hx.set(ra, "init_from_template", lambda *a, **k: CALLS.append(("init", str(a[2]))))
+hx.put(c, "prepend_zdir", fake_prepend_zdir)
+hx.put(ra, "print", lambda *a, **k: OUT.append(" ".join(str(x) for x in a)))
+hx.put(ra, "init_from_template", lambda *a, **k: CALLS.append(("init", str(a[2]))))
 
 
 class _SP:
@@ -48,8 +48,8 @@ class _SP:
         return R()
 
 
-hx.set(ra, "sp", _SP)
-hx.set(ra, "_refresh_zoq_file", lambda cfg, p: CALLS.append(("refresh", str(p))))
+hx.put(ra, "sp", _SP)
+hx.put(ra, "_refresh_zoq_file", lambda cfg, p: CALLS.append(("refresh", str(p))))
 
 Z1, Z2, Z3 = "240101#01", "240202#02", "240303#0A3"
 INDEX = [None]      # dict(zids={zid: page}, ids={id: [pages]}, rids={rid: [pages]})
@@ -67,7 +67,7 @@ class _NU:
         return [Note("x", file_path=Path(p), line_no=3 + i, zid="24010%d#0%d" % (i + 1, i)) for i, p in enumerate(pages)]
 
 
-hx.set(ra, "note_utils", _NU)
+hx.put(ra, "note_utils", _NU)
 
 
 class Cfg:
